@@ -468,8 +468,11 @@ loop:
 			// run cluster inventory check
 
 			t.Stop()
-			// Run an inventory check
-			runch = is.runCheck(ctx)
+			// Run an inventory check, unless one is still in flight: starting a
+			// second one would discard the answer of the first
+			if runch == nil {
+				runch = is.runCheck(ctx)
+			}
 
 		case res := <-runch:
 			// inventory check returned
